@@ -21,7 +21,7 @@ def match_known(known, ob):
             return '%s [%s]' % (desc, ob.name)
     return None
 
-def guarded(rp, ob, limit=240):
+def guarded(rp, ob, limit=150):
     """a replay (model extraction in-process, go test / node outside) runs in a forked child with a wall-clock limit: a
     solver call that does not honour its timeout must not hang the check"""
     import multiprocessing
